@@ -252,3 +252,44 @@ Proof.
       injection H as <- <- <-. cbn [fold_left]. apply (IH _ _ _ _ E1).
     + injection H as <- <- <-. reflexivity.
 Qed.
+
+(* ---- what the manager hands to the congestion controller when it declares packets lost ---- *)
+(* every on_packet_lost call of a detection at time [now] carries timestamp = now (the recovery period
+   starts when the loss is detected, RFC 9002 7.3.2), a positive byte count, the path of the packet,
+   persistent_congestion = (threshold of that path < duration) && (packet on the path the ACK arrived on) *)
+Theorem lost_calls_spec : forall ls m pcd cpath now prev k,
+  In k (lost_calls m pcd cpath now prev ls) ->
+  k_kind k = 3 /\ k_d k = now /\
+  exists p, In p ls /\ 0 < p_bytes p /\ k_a k = p_bytes p /\ k_path k = p_path p
+    /\ k_b k = nb ((persistent_congestion_threshold (rt (get_path m (p_path p))) <? pcd) && (p_path p =? cpath)).
+Proof.
+  induction ls as [|p t IH]; intros m pcd cpath now prev k H; cbn [lost_calls] in H; [destruct H|].
+  apply in_app_iff in H as [H|H].
+  - destruct (N.ltb_spec 0 (p_bytes p)); [|destruct H]. destruct H as [<-|[]]. cbn [k_kind k_d k_a k_path k_b].
+    split; [reflexivity|]. split; [reflexivity|]. exists p. split; [left; reflexivity|]. repeat split; auto.
+  - destruct (IH _ _ _ _ _ _ H) as (H1 & H2 & q & Hq & Hr). split; [assumption|]. split; [assumption|]. exists q. split; [right; assumption|assumption].
+Qed.
+
+(* new_loss_burst: true for the first lost packet of a detection and after every packet number gap *)
+Theorem lost_calls_burst : forall m pcd cpath now prev p t,
+  lost_calls m pcd cpath now prev (p :: t) =
+  (if 0 <? p_bytes p
+   then [{| k_kind := 3; k_path := p_path p; k_a := p_bytes p;
+            k_b := nb ((persistent_congestion_threshold (rt (get_path m (p_path p))) <? pcd) && (p_path p =? cpath));
+            k_c := nb (match prev with None => true | Some q => negb (p_pn p =? q + 1) end); k_d := now |}]
+   else [])
+  ++ lost_calls m pcd cpath now (Some (p_pn p)) t.
+Proof. reflexivity. Qed.
+
+(* the calls of one detection are those for exactly the packets it declares lost, in packet number
+   order, with the duration of the persistent congestion calculator over those packets *)
+Theorem detect_calls_spec : forall m now cpath, exists ls,
+  snd (detect_and_remove m now cpath) = map p_pn ls
+  /\ detect_calls m now cpath =
+     lost_calls m (maxd (fold_left (step (fts (get_path m cpath)) cpath) ls pc0)) cpath now None ls.
+Proof.
+  intros m now cpath. unfold detect_and_remove, detect_calls.
+  destruct (largest m) as [lg|]; [|exists []; split; reflexivity].
+  destruct (detect_walk m lg now cpath (sentp m) {| cur := None; maxd := 0 |}) as [[ls c] lt] eqn:E.
+  exists ls. split; [reflexivity|]. rewrite (detect_walk_calc _ _ _ _ _ _ _ _ _ E). reflexivity.
+Qed.
